@@ -62,6 +62,28 @@ vf_tls_virtual_clock(void) {
   _gnutls_global_set_gettime_function(vf_tls_gettime);
 }
 
+/* A wait inside the library (coap_io_process() called by coap_client_delay_first()) would
+ * sleep in real time while the virtual clock stands still, and never end.  Nothing is ever
+ * readable on the virtual sockets during a command, so such a wait simply consumes its
+ * time-out in virtual time. */
+#include <sys/select.h>
+int __real_select(int n, fd_set *r, fd_set *w, fd_set *e, struct timeval *tv);
+int
+__wrap_select(int n, fd_set *r, fd_set *w, fd_set *e, struct timeval *tv) {
+  uint64_t ms;
+  if (vf_real_clock)
+    return __real_select(n, r, w, e, tv);
+  ms = tv ? (uint64_t)tv->tv_sec * 1000 + (uint64_t)tv->tv_usec / 1000 : 1000;
+  vf_now_ms += ms ? ms : 1;
+  if (r)
+    FD_ZERO(r);
+  if (w)
+    FD_ZERO(w);
+  if (e)
+    FD_ZERO(e);
+  return 0;
+}
+
 /* ------------------------------------------------------------ sockets -- */
 vsock_t vsocks[VF_MAX_SOCKS];
 int vf_cur_node = -1;
